@@ -21,6 +21,7 @@ from .utils import (
     _hoomd_dict_mapping,
     _map_dict_keys,
     _set_3d_axes_equal,
+    _validate_scale,
     translate_inertia_tensor,
 )
 
@@ -205,6 +206,7 @@ class Polyhedron(Shape3D):
             scale (float):
                 Scale factor.
         """
+        _validate_scale(scale)
         self._vertices *= scale
         self._equations[:, 3] *= scale
 
